@@ -78,6 +78,9 @@ def main():
             skipped_other += 1
             continue
         rules = bool(z.posix and z.posix.ok and z.posix.dst and not z.posix.allyear())
+        # ALLOW: CPython unpacks the designation index as a *signed* byte (">lbb"), so designations at table offsets
+        # >= 128 (RFC 9636: unsigned) come out as ''; for those types only the offset is compared
+        hi_abbr = {z.types[i][2] for i, rt in enumerate(z.raw_types) if rt[2] >= 128}
         for t in probes(z, rnd):
             if (nform or j59) and z.times and t >= z.times[-1]:
                 skipped_nform += 1
@@ -106,7 +109,7 @@ def main():
             got_off = off.days * 86400 + off.seconds
             compared += 1
             # ALLOW: zoneinfo rounds nothing but cannot represent sub-second... offsets are whole seconds: exact compare
-            if got_off != exp[0] or loc.tzname() != exp[2]:
+            if got_off != exp[0] or (loc.tzname() != exp[2] and exp[2] not in hi_abbr):
                 bad += 1
                 per_zone[(cls, name, z.footer)] = per_zone.get((cls, name, z.footer), 0) + 1
                 if bad <= 20:
